@@ -38,4 +38,9 @@ Definition wf_case (c : case) : bool :=
   | Wakeups m j tip ts ws _ _ =>
       h32 m && h32 j && h32 tip && words ws &&
       forallb (fun t => h32 (fst (fst t)) && h32 (snd (fst t)) && h32 (snd t)) ts
+  | Shift _ iv served pre ws _ =>
+      nz32 iv && h32 served && words ws &&
+      forallb (fun t => let '(st, tr, sched, ex, an) := t in
+                        in_range 0 4 st && h32 sched && h32 ex && oin h32 an) pre &&
+      match pre with (_, _, s0, _, _) :: _ => s0 <=? served | [] => true end
   end.
